@@ -166,20 +166,29 @@ def _get_addresses(f, fname, size, start, end):
 
     return sorted(addresses)
 
-def _find_terminal_instruction(snapshot, ctls, start, end, rst_handler, ctl=None):
+def _find_terminal_instruction(snapshot, ctls, start, end, rst_handler, ctl=None, limit=65536):
+    # No marker is removed at, or placed beyond, 'limit' (the end address of
+    # the range being analysed)
     address = start
     while address < end:
         i_addr, size, max_count, op_id = next(decode(snapshot, address, address + 1, rst_handler))[:4]
+        if ctl is None and i_addr + size > limit:
+            # This instruction is cut off by the end address, so the code
+            # stops before it
+            if i_addr == start or i_addr in ctls:
+                return end
+            ctls[i_addr] = next_ctl
+            return i_addr
         address += size
         if ctl is None:
-            for a in range(i_addr, address):
+            for a in range(i_addr, min(address, limit)):
                 if a in ctls:
                     next_ctl = ctls[a]
                     del ctls[a]
             if ctls.get(address) == 'c':
                 break
         if op_id == END:
-            if address < 65536 and address not in ctls:
+            if address < limit and address not in ctls:
                 ctls[address] = ctl or next_ctl
             break
     return address
@@ -225,7 +234,7 @@ def _generate_ctls_with_code_map(snapshot, start, end, config, rst_handler, code
                 last_op_id = list(decode(snapshot, b_start, b_end, rst_handler))[-1][3]
                 if last_op_id == END:
                     continue
-                if _find_terminal_instruction(snapshot, ctls, b_end, end, rst_handler) < end:
+                if _find_terminal_instruction(snapshot, ctls, b_end, end, rst_handler, limit=end) < end:
                     done = False
                     break
         if done:
@@ -248,7 +257,7 @@ def _generate_ctls_with_code_map(snapshot, start, end, config, rst_handler, code
                                 e_end = entry.next.address
                             else:
                                 e_end = 65536
-                            _find_terminal_instruction(snapshot, ctls, instruction.address, e_end, rst_handler, entry.ctl)
+                            _find_terminal_instruction(snapshot, ctls, instruction.address, e_end, rst_handler, entry.ctl, end)
                             disassembly.remove_entry(entry.address)
                             done = False
                             break
@@ -262,11 +271,11 @@ def _generate_ctls_with_code_map(snapshot, start, end, config, rst_handler, code
     # (4) Split 'c' blocks on RET/JP/JR
     for ctl, b_address, b_end in _get_blocks(ctls):
         if ctl == 'c':
-            next_address = _find_terminal_instruction(snapshot, ctls, b_address, b_end, rst_handler, 'c')
+            next_address = _find_terminal_instruction(snapshot, ctls, b_address, b_end, rst_handler, 'c', end)
             if next_address < b_end:
                 disassembly.remove_entry(b_address)
                 while next_address < b_end:
-                    next_address = _find_terminal_instruction(snapshot, ctls, next_address, b_end, rst_handler, 'c')
+                    next_address = _find_terminal_instruction(snapshot, ctls, next_address, b_end, rst_handler, 'c', end)
 
     # (5) Scan the disassembly for pairs of adjacent blocks where the start
     # address of the second block is JRed or JPed to from the first block, and
@@ -350,6 +359,9 @@ def _generate_ctls_without_code_map(snapshot, start, end, config, rst_handler):
     prev_max_count, prev_op_id, prev_op, prev_op_bytes = 0, None, None, ()
     count = 1
     for addr, size, max_count, op_id, operation, rst_args in decode(snapshot, start, end, rst_handler):
+        if addr + size > end:
+            # This instruction is cut off by the end address, so it's data
+            break
         op_bytes = snapshot[addr:addr + size]
         if op_id == END:
             # Catch data-like sequences that precede a terminal instruction
